@@ -300,8 +300,31 @@ def parseClassM (T : MTables) (v10 : Bool) : Nat → List Ch → Option (CC × L
             | _ => none
           | _ => none
 
-/-- a whole pattern that is one class expression `[...]` -/
-def parseClassText (T : MTables) (v10 : Bool) (s : List Ch) : Option CC :=
+def isHex (c : Ch) : Bool := (48 ≤ c && c ≤ 57) || (65 ≤ c && c ≤ 70) || (97 ≤ c && c ≤ 102)
+def isDig (c : Ch) : Bool := 48 ≤ c && c ≤ 57
+
+/-- `FORBIDDEN_ESCAPES_REF_PATTERN` / `..._NOREF_PATTERN` `.search(pattern)` (patterns.py:25-30,
+checked before the scan): `(?<!\\)\\(U[hex]{8}|u[hex]{4}|x[hex]{2}|o{\d+}|A|Z|z|B|b|o|0\d{2})`,
+and `\d+` as well when back-references are off.  (`\d` is modelled for ASCII digits.) -/
+def forbiddenEscape (backrefs : Bool) : Option Ch → List Ch → Bool
+  | _, [] => false
+  | prev, 92 :: rest =>
+    let hit : Bool :=
+      prev != some 92 &&
+      (match rest with
+       | 85 :: r => (r.take 8).length == 8 && (r.take 8).all isHex
+       | 117 :: r => (r.take 4).length == 4 && (r.take 4).all isHex
+       | 120 :: r => (r.take 2).length == 2 && (r.take 2).all isHex
+       | 65 :: _ | 90 :: _ | 122 :: _ | 66 :: _ | 98 :: _ | 111 :: _ => true
+       | 48 :: a :: b :: _ => (isDig a && isDig b) || !backrefs
+       | d :: _ => !backrefs && isDig d
+       | [] => false)
+    hit || forbiddenEscape backrefs (some 92) rest
+  | _, c :: rest => forbiddenEscape backrefs (some c) rest
+
+/-- a whole pattern that is one class expression `[...]` (through `translate_pattern`) -/
+def parseClassText (T : MTables) (v10 : Bool) (backrefs : Bool) (s : List Ch) : Option CC :=
+  if forbiddenEscape backrefs none s then none else
   match s with
   | 91 :: rest =>
     match parseClassM T v10 (rest.length + 1) rest with
